@@ -16,6 +16,7 @@ Three differential oracles (no expectation is computed by calling falcon):
 3. on each stack ``falcon.testing.simulate_request`` must produce the same digest and the same
    response as the minimal driver (sub-domain that the client's documented arguments can express).
 """
+import calendar
 import datetime as _dt
 import decimal
 import http
@@ -708,6 +709,7 @@ class Obs(object):
         self.api_exc = api_exc
         self.code = code
         self.headers = sorted(_no_clock(k, v) for k, v in headers)
+        self.raw_set_cookie = [v for k, v in headers if k == 'set-cookie']
         self.body = body
         self.digests = list(digests)
         self.cookie_names = None
@@ -782,14 +784,21 @@ def compare_with_client(stack, drv, cli, case):
                 # result.cookies[name] describes the LAST Set-Cookie line for that name: value, Expires as the same instant
                 # (whatever the time zone of the process running the test client), Max-Age, Domain, Path
                 last = {}
-                for v in multi['set-cookie']:
+                for v in drv.raw_set_cookie:
                     n, val, facts = _cookie_facts_of_line(v)
                     last[n] = (val, facts)
                 for n, (val, facts) in last.items():
                     got_val, got_facts = cli.cookie_facts.get(n, (None, {}))
-                    for k in ('expires', 'max_age', 'domain', 'path'):
+                    for k in ('max_age', 'domain', 'path'):
                         if facts[k] is not None and got_facts.get(k) != facts[k]:
                             detail = 'cookie attribute %s of %r (line says %r, result.cookies says %r)' % (k, n, facts[k], got_facts.get(k))
+                    if facts['expires'] is not None:
+                        # unset_cookie() stamps a date relative to the clock; the driver's and the client's responses are
+                        # produced within the same case, so the two instants are at most minutes apart - a wrong reading
+                        # of the GMT date in a process that is not on UTC is off by the zone's offset (>= 30 minutes)
+                        ge = got_facts.get('expires')
+                        if ge is None or ge[0] == 'naive' or abs(calendar.timegm(ge + (0, 0, 0)) - calendar.timegm(facts['expires'] + (0, 0, 0))) > 900:
+                            detail = 'cookie attribute expires of %r (line says %r GMT, result.cookies says %r)' % (n, facts['expires'], ge)
     if detail is not None:
         raise Violation('client_response_' + detail.split(' ')[0],
                         '%s: %s differ: driver=%r client=%r cookies=%r; request: %s; responder: %r'
